@@ -9,6 +9,9 @@ ROOT = os.path.dirname(os.path.dirname(os.path.abspath(__file__)))
 seed = os.path.abspath(sys.argv[1]); tier = "quick"; inplace = "--inplace" in sys.argv
 if "--tier" in sys.argv: tier = sys.argv[sys.argv.index("--tier") + 1]
 meta = json.load(open(seed + "/meta.json")); pid = meta["property"]
+other = None
+if "--prop" in sys.argv:      # run ANOTHER property's check on this seed (cross-coverage); recorded under caught_by_other
+    other = sys.argv[sys.argv.index("--prop") + 1]; pid = other
 name = os.path.basename(seed)
 evd = "/var/tmp/verif-seed-evidence/%s" % name
 os.makedirs(evd, exist_ok=True)
@@ -49,6 +52,9 @@ finally:
     # the replay files of this experiment must not be mistaken for findings on the unchanged tree
     for f in os.listdir(os.path.join(evd, "replay")) if os.path.isdir(os.path.join(evd, "replay")) else []:
         pass
-meta["caught_by"] = out
+if other:
+    meta.setdefault("caught_by_other", {})[other] = out
+else:
+    meta["caught_by"] = out
 json.dump(meta, open(seed + "/meta.json", "w"), indent=1)
 print(name, json.dumps(out)[:600])
